@@ -13,7 +13,7 @@
     however often it retries ([C05_third_side_open_refused], and the crowded
     branches of C01_open_outcome / C07_claim_outcome). *)
 From MW Require Import Base Store Monad Usage Server Websocket Service Findings Inv Obs
-     ProtoFacts StepFacts SweepFacts NpFactsA MbFactsA MbFactsB CrowdFacts Inst_Params.
+     ProtoFacts StepFacts SweepFacts NpFactsA MbFactsA MbFactsB CrowdFacts Inst_Params CrashLife.
 Local Open Scope list_scope.
 
 (** over every non-crash event, for every mailbox id still alive: the side list only got longer at the end *)
@@ -60,6 +60,28 @@ Theorem C05_first_side_locked_out_refuted : ltac:(let t := type of first_side_lo
 Proof. exact first_side_locked_out_refuted. Qed.
 Check C05_first_side_locked_out_refuted.
 Print Assumptions C05_first_side_locked_out_refuted.
+
+
+(** ** every event, crashes at any commit boundary included (CrashLife.v): while a mailbox /
+    nameplate lives, sides are only ever appended to its list -- also across an event that
+    dies after any of its commits and the restart that follows *)
+Theorem C05_step_all : ltac:(let t := type of step_Step_all in exact t).
+Proof. exact step_Step_all. Qed.
+Check C05_step_all.
+Print Assumptions C05_step_all.
+
+Theorem C05_mailbox_sides_only_grow_all : ltac:(let t := type of mb_sides_only_grow_all in exact t).
+Proof. exact mb_sides_only_grow_all. Qed.
+Check C05_mailbox_sides_only_grow_all.
+Print Assumptions C05_mailbox_sides_only_grow_all.
+
+Theorem C05_nameplate_sides_only_grow_all : ltac:(let t := type of np_sides_only_grow_all in exact t).
+Proof. exact np_sides_only_grow_all. Qed.
+Check C05_nameplate_sides_only_grow_all.
+Print Assumptions C05_nameplate_sides_only_grow_all.
+
+Example C05_crash_extends_side_lists : ltac:(let t := type of crash_extends_side_lists in exact t).
+Proof. exact crash_extends_side_lists. Qed.
 
 
 Example C05_nonvacuous : SInv kf2_state /\ log kf2_state = [].
